@@ -516,7 +516,7 @@ def run_isolated(decide: Callable[[], int], res: Result) -> int:
     body = {"kind": "no-failing-input-found", "no_longer_checks": [what],
             "first_corr_diff": {"name": "corr:interpreter-crash", "diff": name, "case": last}, "python_stack": where}
     path = write_replay(res.prop, res.seed, body)
-    print(f"VIOLATION property={res.prop} replay={path} no-failing-input-found")
+    _verdict_line(f"VIOLATION property={res.prop} replay={path} no-failing-input-found")
     ev = {"property_id": res.prop, "tier": res.tier, "seed": res.seed, "level": "proof",
           "coverage": {"broken": [what], "evaluations": 0, "obligations": max(len(prop_theorems(res.prop)), 1), "discharged": 0},
           "assumptions": [], "wall_s": round(time.time() - res.t0, 2), "violations": 1}
